@@ -1,7 +1,126 @@
-(** C01 — generated legal moves are exactly the legal moves of chess.  (work in progress) *)
+(** C01 — generated legal moves are exactly the legal moves of chess.
+    Only statements; every proof is [exact <lemma>].
+    Model: Chess/BitBoard.v, Chess/MoveGen.v (+ Chess/Position.v), written like
+    lib/texellib/bitBoard.{hpp,cpp} and moveGen.{hpp,cpp} over the tables regenerated into
+    gen/BitBoardTables.v; tied to the code by the correspondence check (props/c01.py).
+    Specification: Chess/Spec.v (mailbox-style FIDE rules). *)
 From Coq Require Import ZArith NArith List Bool.
-From Texel Require Import Chess.Types Chess.Spec.
+From Texel Require Import Chess.Types Chess.Position Chess.BitBoard Chess.MoveGen Chess.Spec Chess.MoveGenWF
+  Chess.BitBoardProofs Chess.RayProofs Chess.MagicSweep Chess.MagicProofs Chess.MoveGenProofs gen.BitBoardTables.
+Import ListNotations.
+Local Open Scope N_scope.
 
-Theorem C01_spec_reflect : forall sp m, legal_specb sp m = true <-> legal_spec sp m.
-Proof. exact legal_specb_spec. Qed.
+(** The tables computed in staticInitialize (same shift-and-mask formulas over the regenerated
+    masks) equal their coordinate definitions for all 64 squares / 64x64 pairs; the regenerated
+    literal dirTable gives getDirection its meaning; the de-Bruijn bit scan is the lowest-set-bit
+    function for EVERY non-zero 64-bit word; [mask &= mask-1] removes exactly that bit. *)
+Theorem C01_tables :
+  (forall s, s < 64 ->
+     kingAttacks s < 2 ^ 64 /\ knightAttacks s < 2 ^ 64 /\ wPawnAttacks s < 2 ^ 64 /\ bPawnAttacks s < 2 ^ 64) /\
+  (forall s t, s < 64 -> t < 64 ->
+     N.testbit (kingAttacks s) t = step_rel king_offsets s t /\
+     N.testbit (knightAttacks s) t = step_rel knight_offsets s t /\
+     N.testbit (wPawnAttacks s) t = step_rel wpawn_offsets s t /\
+     N.testbit (bPawnAttacks s) t = step_rel bpawn_offsets s t) /\
+  (forall f t, f < 8 -> t < 64 ->
+     N.testbit (epMaskWF f) t = ((zr t =? 3) && (Z.abs (zf t - Z.of_N f) =? 1))%Z /\
+     N.testbit (epMaskBF f) t = ((zr t =? 4) && (Z.abs (zf t - Z.of_N f) =? 1))%Z) /\
+  (forall a b, a < 64 -> b < 64 ->
+     squaresBetween a b < 2 ^ 64 /\
+     (forall t, t < 64 -> N.testbit (squaresBetween a b) t = between_rel a b t) /\
+     getDirection a b = dir_rel a b) /\
+  (forall m, 0 < m -> m < 2 ^ 64 ->
+     firstBitT m = firstBit m /\ N.testbit m (firstBit m) = true /\
+     (forall i, N.testbit m i = true -> firstBit m <= i) /\
+     (forall i, N.testbit (clearLowest m) i = N.testbit m i && negb (i =? firstBit m))) /\
+  (forall i, i < 64 -> lastBitT (bit i) = i /\ lastBitT (N.ones (i + 1)) = i /\ bitCountT (N.ones (i + 1)) = i + 1).
+Proof. exact tables_all. Qed.
+Print Assumptions C01_tables.
+
+(** Ray-walk lemma, for every occupancy word: a square is in the rook (bishop) attack set of s
+    iff it is aligned with s and no square strictly between them is occupied; attack sets
+    contain board squares only. *)
+Theorem C01_rays : forall s t occ, s < 64 ->
+  (t < 64 -> (N.testbit (rookAttacks s occ) t = true <->
+              rookAligned s t = true /\ N.land (squaresBetween s t) occ = 0)) /\
+  (t < 64 -> (N.testbit (bishopAttacks s occ) t = true <->
+              bishopAligned s t = true /\ N.land (squaresBetween s t) occ = 0)) /\
+  (N.testbit (rookAttacks s occ) t = true -> t < 64) /\
+  (N.testbit (bishopAttacks s occ) t = true -> t < 64).
+Proof. exact rays_all. Qed.
+Print Assumptions C01_rays.
+
+(** Magic tables: with the regenerated magic numbers and shift counts every square's table is
+    built without a failed assert and without an index outside the table (the model returns
+    None otherwise), and for EVERY occupancy word the table lookup equals the ray walk. *)
+Theorem C01_magic : forall s occ, s < 64 ->
+  rTableOf s <> None /\ bTableOf s <> None /\
+  rookAttacksMagic s occ = rookAttacks s occ /\ bishopAttacksMagic s occ = bishopAttacks s occ.
+Proof. exact magic_all. Qed.
+Print Assumptions C01_magic.
+
+(** The loops over set bits: a move is in the list built by
+    [while (mask != 0) { sq = extractSquare(mask); addMovesByMask(list, sq, g(sq)); }]
+    iff it was there before or it is (sq, t) for a set bit sq of mask and a set bit t of g(sq)
+    (any 64-bit mask; the fuel of the model's loop always suffices). *)
+Theorem C01_bit_loops : forall (g : square -> N) mask l0 m,
+  mask < 2 ^ 64 -> (forall sq, g sq < 2 ^ 64) ->
+  (In m (forSquares mask (fun l sq => addMovesByMask l sq (g sq)) l0) <->
+   In m l0 \/ exists sq t, N.testbit mask sq = true /\ N.testbit (g sq) t = true /\ m = mkMove sq t EMPTY).
+Proof. exact forSquares_moves_In. Qed.
+Print Assumptions C01_bit_loops.
+
+(** Step pieces (partial form of C01_legal_exact, level L2/L4 of the proof plan): in a
+    well-formed position the knight block and the king block (without castling) of
+    pseudoLegalMoves generate exactly the Spec's pseudo-moves of those pieces. *)
+Theorem C01_step_pieces_partial : forall p m, WF p ->
+  (In m (knightBlock (whiteMove p) p []) <->
+   exists f r, on_board f r = true /\ at_ (squares p) f r = mk_piece (whiteMove p) Knight /\
+               In m (step_moves (squares p) (whiteMove p) f r knight_offsets)) /\
+  (In m (kingBlock (whiteMove p) p []) <->
+   exists f r, on_board f r = true /\ at_ (squares p) f r = mk_piece (whiteMove p) King /\
+               In m (step_moves (squares p) (whiteMove p) f r king_offsets)).
+Proof. exact step_blocks_spec. Qed.
+Print Assumptions C01_step_pieces_partial.
+
+(** the Spec's boolean legality test reflects the relation; the Spec's move list is the set of
+    legal moves *)
+Theorem C01_spec_reflect : forall sp m,
+  (legal_specb sp m = true <-> legal_spec sp m) /\ (In m (legal_moves_spec sp) <-> legal_spec sp m).
+Proof. exact (fun sp m => conj (legal_specb_spec sp m) (legal_moves_spec_In sp m)). Qed.
 Print Assumptions C01_spec_reflect.
+
+(** * Full statements not (yet) proved: carried by the correspondence against the Spec *)
+
+(** generated legal moves = legal moves of chess, without duplicates; the position is restored *)
+Definition C01_legal_exact_statement : Prop :=
+  forall zk p, WF p ->
+    let r := removeIllegal zk p (pseudoLegalMoves p) in
+    NoDup (snd r) /\ (forall m, In m (snd r) <-> legal_spec (abs p) m) /\ samePosition (fst r) p.
+
+Definition C01_isLegal_statement : Prop :=
+  forall p m, WF p ->
+    (In m (pseudoLegalMoves p) \/ In m (checkEvasions p) \/ In m (pseudoLegalCapturesAndChecks p) \/ In m (pseudoLegalCaptures p)) ->
+    snd (isLegal p m (inCheck p)) = legal_specb (abs p) m /\ samePosition (fst (isLegal p m (inCheck p))) p.
+
+Definition C01_evasions_complete_statement : Prop :=
+  forall zk p m, WF p -> inCheck p = true ->
+    (In m (snd (removeIllegal zk p (checkEvasions p))) <-> legal_spec (abs p) m).
+
+Definition C01_captures_complete_statement : Prop :=
+  forall zk p m, WF p -> legal_spec (abs p) m -> captureClass (abs p) m = true ->
+    In m (snd (removeIllegal zk p (pseudoLegalCaptures p))).
+
+Definition C01_captures_checks_complete_statement : Prop :=
+  forall zk p m, WF p -> legal_spec (abs p) m -> captureCheckClass (abs p) m = true ->
+    In m (snd (removeIllegal zk p (pseudoLegalCapturesAndChecks p))).
+
+(** gives-check verdict for the moves the engine may play (legal moves) *)
+Definition C01_givesCheck_statement : Prop :=
+  forall p m, WF p -> legal_spec (abs p) m -> givesCheck p m = gives_check_spec (abs p) m.
+
+Definition C01_inCheck_statement : Prop :=
+  forall p, WF p -> inCheck p = in_checkb (squares p) (whiteMove p).
+
+Definition C01_wf_preserved_statement : Prop :=
+  forall zk p m, WF p -> legal_spec (abs p) m -> WF (fst (makeMove zk p m)).
